@@ -224,3 +224,106 @@ func equalConjunctiveRule(r *Report, p *Prog, rule string, pkgs ...string) int {
 	}
 	return n
 }
+
+// parallelRemainderRule (C01.f PARALLEL-REMAINDERS): a comparator that walks its
+// two operands in step keeps one loop-carried "rest" per operand, advanced by
+// the same function (pl, ql = rest(pl), rest(ql)). The two must be treated
+// alike: if the loop (or anything after it) tests one of them, the other has
+// to be tested or returned somewhere too. A loop that runs "while the
+// receiver's rest is not empty" and then answers 0 never looks at what the
+// argument still holds: 1.0+abc compares equal to 1.0+abc.1 one way round and
+// greater the other way.
+func parallelRemainderRule(r *Report, p *Prog, rule string, fns []*ssa.Function) int {
+	n := 0
+	for _, f := range fns {
+		if f == nil || f.Blocks == nil {
+			continue
+		}
+		for _, b := range f.Blocks {
+			var phis []*ssa.Phi
+			for _, in := range b.Instrs {
+				if ph, ok := in.(*ssa.Phi); ok {
+					phis = append(phis, ph)
+				}
+			}
+			// the recurrence of a phi: an edge that is Extract#k of a call g(..phi..)
+			type rec struct {
+				fn   *ssa.Function
+				idx  int
+				call *ssa.Call
+			}
+			recOf := func(ph *ssa.Phi) *rec {
+				for _, e := range ph.Edges {
+					ex, ok := e.(*ssa.Extract)
+					if !ok {
+						continue
+					}
+					c, ok := ex.Tuple.(*ssa.Call)
+					if !ok || c.Common().StaticCallee() == nil {
+						continue
+					}
+					for _, a := range c.Common().Args {
+						if a == ssa.Value(ph) {
+							return &rec{c.Common().StaticCallee(), ex.Index, c}
+						}
+					}
+				}
+				return nil
+			}
+			// is the phi tested (compared) or returned, apart from feeding its own recurrence?
+			tested := func(ph *ssa.Phi, own *ssa.Call) bool {
+				if ph.Referrers() == nil {
+					return false
+				}
+				for _, u := range *ph.Referrers() {
+					switch x := u.(type) {
+					case *ssa.BinOp:
+						return true
+					case *ssa.Return:
+						return true
+					case *ssa.Call:
+						if x != own {
+							return true
+						}
+					case *ssa.Phi:
+						// flows on (e.g. to the value after the loop): look one step further
+						if x != ph && x.Referrers() != nil {
+							for _, u2 := range *x.Referrers() {
+								switch u2.(type) {
+								case *ssa.BinOp, *ssa.Return:
+									return true
+								}
+							}
+						}
+					}
+				}
+				return false
+			}
+			for i := 0; i < len(phis); i++ {
+				ri := recOf(phis[i])
+				if ri == nil {
+					continue
+				}
+				for j := i + 1; j < len(phis); j++ {
+					rj := recOf(phis[j])
+					if rj == nil || rj.fn != ri.fn || rj.idx != ri.idx || !types.Identical(phis[i].Type(), phis[j].Type()) {
+						continue
+					}
+					n++
+					key := fmt.Sprintf("%s: the rests advanced by %s are tested alike", fnKey(f), ri.fn.Name())
+					ti, tj := tested(phis[i], ri.call), tested(phis[j], rj.call)
+					if ti == tj {
+						how := "neither rest is tested: the walk is bounded by a count computed from both operands"
+						if ti {
+							how = "both rests are tested or returned"
+						}
+						r.ok(rule, key, p.pos(ri.call.Pos()), how)
+					} else {
+						r.bad(rule, key, p.pos(ri.call.Pos()), "the two operands are walked in step, but the rest of only one of them is ever tested: when that one runs out the other's remaining elements are never looked at, so a shorter operand compares equal to a longer one from one side and smaller from the other")
+					}
+				}
+			}
+		}
+	}
+	return n
+}
